@@ -413,7 +413,7 @@ def posteriors(real, tier):
         lay = c02.Layout(kd, 2)
         if lay.D < 2:
             continue
-        for n_ids in (2, 3):
+        for n_ids in (1, 2, 3):
             pop = c02.build_model(real, kd, n_ids)
             lay = c02.Layout(kd, n_ids)
             lls = [toy_ll(real, lay.D - 1, 'patient %d' % (7 * i + 3)) for i in range(n_ids)]
